@@ -102,7 +102,20 @@ pub fn fresh_for(cfg: &Config) -> Fresh {
         None => fresh(cfg.ptype),
         Some(b) => {
             let mut h = Harness::open(b.clone()).expect("seed opens");
-            Fresh { snapshot: snapshot(h.p()).expect("snapshot of seed") }
+            let snap = match snapshot(h.p()) {
+                Ok(s) => s,
+                Err(_) => {
+                    // the accessor cross-checks failed on the seed itself: take
+                    // the baseline without them; the exploration's own state
+                    // checks will report the disagreement as a violation
+                    use std::sync::atomic::Ordering;
+                    crate::snapshot::ACCESSOR_CHECKS.store(false, Ordering::Relaxed);
+                    let s = snapshot(h.p());
+                    crate::snapshot::ACCESSOR_CHECKS.store(true, Ordering::Relaxed);
+                    s.expect("snapshot of seed")
+                }
+            };
+            Fresh { snapshot: snap }
         }
     }
 }
